@@ -2,3 +2,6 @@ SPECIFICATION SpecApi
 CHECK_DEADLOCK FALSE
 \* see TraceBytes.cfg
 CONSTANT LsEff <- LsWithKnownFindings
+CONSTANT MaxLevels <- EnvMaxLevels
+CONSTANT MaxHeightAt <- EnvMaxHeightAt
+CONSTANT MinWAt <- EnvMinWAt
